@@ -74,6 +74,7 @@ def main(ctx):
                          "root": s[0] == API_KINDS[0] and s[1] is None})
         for i in range(8):
             jobs.append({"kind": "flat", "part": i, "parts": 8})
+        jobs.append({"kind": "reentrant"})
         # the tiny single-API shards first: their counterexamples are the shortest
         jobs.sort(key=lambda j: (j["kind"] != "bfs", j.get("idseed", 0) != 0,
                                  -sum(1 for x in j.get("first", []) if x is None)))
@@ -90,7 +91,8 @@ def main(ctx):
               "ev:wrongerr", "ev:event", "ev:inv", "v:complete", "v:progress", "v:violation",
               "v:unspecified", "protocol_error_raised", "three_outstanding", "two_kinds_outstanding",
               "reply_out_of_order", "id_wrapped", "flat_execs", "progress_details_delivered",
-              "dup_after_result", "dup_after_error", "completed_ok", "completed_err"):
+              "dup_after_result", "dup_after_error", "completed_ok", "completed_err",
+              "reentrant_execs"):
         ctx.require(n)
 
 
@@ -650,7 +652,152 @@ def _mk_viol(env, a, history, ev, v):
                        "arg": {"history": history + [ev], "idseed": a.get("idseed", 0)}}}
 
 
+def _job_reentrant(a, env, seed):
+    """replies that arrive re-entrantly, from inside ITransport.send() (in-process / loop-back
+    routers answer synchronously): for every request kind, the reply to the request being sent -
+    and, for sequences of two requests, the reply to the earlier one - is delivered to
+    session.onMessage() while send() of a request is still on the stack.  The returned future
+    must complete exactly once with that reply; nothing may be treated as a protocol violation."""
+    import itertools
+    from harness import wamp_l1 as H
+    from autobahn.wamp import message as M
+    from autobahn.wamp import types as T
+    viol = []
+    stats = {"reentrant_execs": 0, "nontrivial": 0}
+    seen = {}
+
+    def bad(clause, kind, detail):
+        sig = "C04|reentrant-%s|%s" % (clause, kind)
+        seen[sig] = seen.get(sig, 0) + 1
+        if seen[sig] <= 2:
+            viol.append({"sig": sig, "desc": "[fw=%s] %s" % (env.get("fw"), detail),
+                         "replay": {"env": {"fw": env.get("fw"), "nvx": "1"}, "func": "props.c04:job",
+                                    "arg": a}})
+    kinds = ["call", "publish", "subscribe", "register", "unsubscribe", "unregister"]
+    modes = ["self-ok", "self-err", "earlier-ok"]
+    for kind, mode in itertools.product(kinds, modes):
+        l1 = H.L1()
+        l1.join()
+        s = l1.session
+        tr = l1.transport
+        # prerequisites for unsubscribe / unregister (answered normally)
+        obj = None
+        if kind in ("unsubscribe", "unregister"):
+            n0 = len(tr.sent)
+            if kind == "unsubscribe":
+                r = l1.api(s.subscribe, lambda *x, **y: None, "com.t.pre")
+                l1.settle()
+                l1.deliver(M.Subscribed(tr.sent[n0].request, 777))
+            else:
+                r = l1.api(s.register, lambda *x, **y: None, "com.p.pre")
+                l1.settle()
+                l1.deliver(M.Registered(tr.sent[n0].request, 888))
+            l1.settle()
+            l1.track("pre", r[1])
+            st = l1.fstate("pre")
+            if st[0] != "ok":
+                raise RuntimeError("harness: prerequisite failed %r" % (st,))
+            obj = st[1]
+        earlier = None
+        if mode == "earlier-ok":
+            n0 = len(tr.sent)
+            r0 = l1.api(s.call, "com.p.earlier", 1)
+            l1.settle()
+            l1.track("earlier", r0[1])
+            earlier = tr.sent[n0].request
+        escaped = []
+        orig_send = tr.send
+
+        def reply_for(msg):
+            if mode == "earlier-ok":
+                return M.Result(earlier, args=["earlier-result"])
+            ok = mode == "self-ok"
+            if isinstance(msg, M.Call):
+                return M.Result(msg.request, args=["r"]) if ok else \
+                    M.Error(M.Call.MESSAGE_TYPE, msg.request, "com.err.x", args=["e"])
+            if isinstance(msg, M.Publish):
+                return M.Published(msg.request, 4242) if ok else \
+                    M.Error(M.Publish.MESSAGE_TYPE, msg.request, "com.err.x", args=["e"])
+            if isinstance(msg, M.Subscribe):
+                return M.Subscribed(msg.request, 5151) if ok else \
+                    M.Error(M.Subscribe.MESSAGE_TYPE, msg.request, "com.err.x", args=["e"])
+            if isinstance(msg, M.Register):
+                return M.Registered(msg.request, 6161) if ok else \
+                    M.Error(M.Register.MESSAGE_TYPE, msg.request, "com.err.x", args=["e"])
+            if isinstance(msg, M.Unsubscribe):
+                return M.Unsubscribed(msg.request) if ok else \
+                    M.Error(M.Unsubscribe.MESSAGE_TYPE, msg.request, "com.err.x", args=["e"])
+            if isinstance(msg, M.Unregister):
+                return M.Unregistered(msg.request) if ok else \
+                    M.Error(M.Unregister.MESSAGE_TYPE, msg.request, "com.err.x", args=["e"])
+            return None
+        fired = []
+
+        def send(msg):
+            orig_send(msg)
+            if fired:
+                return
+            rp = reply_for(msg)
+            if rp is not None:
+                fired.append(rp)
+                try:
+                    s.onMessage(rp)      # re-entrant delivery, send() still on the stack
+                except Exception as e:
+                    escaped.append(e)
+        tr.send = send
+        if kind == "call":
+            r = l1.api(s.call, "com.p.x", 1, 2)
+        elif kind == "publish":
+            r = l1.api(s.publish, "com.t.x", 1, options=T.PublishOptions(acknowledge=True))
+        elif kind == "subscribe":
+            r = l1.api(s.subscribe, lambda *x, **y: None, "com.t.x")
+        elif kind == "register":
+            r = l1.api(s.register, lambda *x, **y: None, "com.p.x")
+        elif kind == "unsubscribe":
+            r = l1.api(obj.unsubscribe)
+        else:
+            r = l1.api(obj.unregister)
+        tr.send = orig_send
+        l1.settle()
+        stats["reentrant_execs"] += 1
+        stats["nontrivial"] += 1
+        tag = "%s/%s" % (kind, mode)
+        if escaped:
+            bad("reply-rejected", tag, "%s: reply delivered inside send() raised %r" % (tag, escaped[0]))
+        if r[0] == "raise":
+            bad("api-raised", tag, "%s: API call raised %r" % (tag, r[1]))
+            continue
+        l1.track("req", r[1])
+        l1.settle()
+        st = l1.fstate("req")
+        if mode == "earlier-ok":
+            se = l1.fstate("earlier")
+            if se[0] != "ok":
+                bad("earlier-not-completed", tag, "%s: earlier call is %r" % (tag, l1.fbrief("earlier")))
+            if st[0] != "pending":
+                bad("later-touched", tag, "%s: the request being sent is %r" % (tag, l1.fbrief("req")))
+        elif mode == "self-ok":
+            if st[0] != "ok":
+                bad("not-completed", tag, "%s: future is %r after its reply arrived inside send()" % (
+                    tag, l1.fbrief("req")))
+        else:
+            if st[0] != "err":
+                bad("not-failed", tag, "%s: future is %r after its ERROR arrived inside send()" % (
+                    tag, l1.fbrief("req")))
+        # a duplicate of the reply afterwards must still be a protocol violation, not a completion
+        if mode != "earlier-ok" and fired:
+            e = l1.deliver(fired[0])
+            st2 = l1.fstate("req")
+            if st2[0] == "multi":
+                bad("completed-twice", tag, "%s: duplicate reply completed the future again" % tag)
+    return {"evals": stats["reentrant_execs"], "viol": viol, "stats": stats,
+            "samples": [{"kind": "reentrant", "cases": stats["reentrant_execs"]}]}
+
+
 def job(a):
+    if a.get("kind") == "reentrant":
+        from mc import worker as _w
+        return _job_reentrant(a, _w.ENV, int(_w.ENV.get("seed", 0)))
     import collections
     from mc import worker
     env = worker.ENV
